@@ -97,7 +97,7 @@ TEXTS = [
 
 def gen(rng, tier):
     cases = []
-    n = 300 if tier == "quick" else 3500
+    n = 300 if tier == "quick" else 12000
     for i in range(n):
         e = gen_eds(rng, charonly=rng.random() < 0.6, connected=i % 3 == 0)
         cases.append({"k": "eds", "e": e, "p": rng.random() < 0.7, "l": rng.random() < 0.7,
